@@ -42,6 +42,12 @@ TEXTS.update({
  "C06": _t("rapid property test; differential between the multi-period and the single-period MPD of the same instant (segment mapping, byte equality)",
            EXPL_NOTE + "All 3600 periods-per-hour values are in the generator's domain (compatible and incompatible), instants sit on period boundaries, window edges and wraps.",
            TRUST + " start_=0; one open known finding (KF-C06-ato-next-period).", "DESIGN.md §7 C06"),
+ "C14": _t("rapid property tests; status-code schedule vs reference model over whole cycles (differential with the parameter-free response); traffic StateAt vs own cyclic expansion, HTTP up/down",
+           EXPL_NOTE + "Every segment over >= 4 cycles is requested; a miss must be byte-identical to the plain response.",
+           TRUST + " slow/hang states only in the thorough tier with one-sided timing.", "DESIGN.md §7 C14"),
+ "C18": _t("rapid property test; model parser written from the statement; metamorphic over read partitions; fault injection (read/callback errors, truncation, corrupt sizes)",
+           EXPL_NOTE + "Tens of thousands of streams x partitions per run; the reader position at each callback checks 'delivered as soon as complete'.",
+           TRUST + " Declared box sizes above 16 MiB are not generated (allocation from a 4-byte field is noted in DESIGN).", "DESIGN.md §7 C18"),
 })
 
 _claimed = set(TEXTS)
